@@ -18,4 +18,5 @@ import (
 	_ "verif/props/c14"
 	_ "verif/props/c17"
 	_ "verif/props/c18"
+	_ "verif/props/c19"
 )
